@@ -351,6 +351,14 @@ def interval_truth(t, ranges, memo=None):
     if z3.is_true(t): return True
     if z3.is_false(t): return False
     if not z3.is_app(t): return None
+    key = ('b', t.get_id())
+    if key in memo: return memo[key][1]
+    r = _interval_truth(t, ranges, memo)
+    memo[key] = (t, r)
+    return r
+
+
+def _interval_truth(t, ranges, memo):
     kind = t.decl().kind(); ch = t.children()
     if kind == z3.Z3_OP_NOT:
         r = interval_truth(ch[0], ranges, memo); return None if r is None else not r
